@@ -670,7 +670,7 @@ where
                                 .reason_code(DisconnectReasonCode::KeepAliveTimeout)
                                 .build()
                             {
-                                events.extend(self.process_send_v5_0_disconnect(disconnect));
+                                self.send_v5_0_disconnect_or_close(disconnect, &mut events);
                             }
                         }
                     }
@@ -695,7 +695,7 @@ where
                                 .reason_code(DisconnectReasonCode::KeepAliveTimeout)
                                 .build()
                             {
-                                events.extend(self.process_send_v5_0_disconnect(disconnect));
+                                self.send_v5_0_disconnect_or_close(disconnect, &mut events);
                             }
                         }
                     }
@@ -2396,7 +2396,7 @@ where
                 .build()
                 .unwrap();
             // Send disconnect packet directly without generic constraints
-            events.extend(self.process_send_v5_0_disconnect(disconnect_packet));
+            self.send_v5_0_disconnect_or_close(disconnect_packet, &mut events);
             events.push(GenericEvent::NotifyError(MqttError::PacketTooLarge));
             return events;
         }
@@ -3651,8 +3651,26 @@ where
             .reason_code(e.into())
             .build()
             .unwrap();
-        events.extend(self.process_send_v5_0_disconnect(disconnect));
+        self.send_v5_0_disconnect_or_close(disconnect, events);
         events.push(GenericEvent::NotifyError(e));
+    }
+
+    /// Send a library-generated DISCONNECT; when the peer's Maximum Packet Size does not
+    /// even admit that packet, close the established connection without it.
+    fn send_v5_0_disconnect_or_close(
+        &mut self,
+        disconnect: v5_0::Disconnect,
+        events: &mut Vec<GenericEvent<PacketIdType>>,
+    ) {
+        if self.status == ConnectionStatus::Connected
+            && !self.validate_maximum_packet_size_send(disconnect.size())
+        {
+            self.status = ConnectionStatus::Disconnected;
+            self.cancel_timers(events);
+            events.push(GenericEvent::RequestClose);
+        } else {
+            events.extend(self.process_send_v5_0_disconnect(disconnect));
+        }
     }
 
     fn refresh_pingreq_recv(&mut self) -> Vec<GenericEvent<PacketIdType>> {
